@@ -44,12 +44,33 @@ type reqCtx struct {
 	closed bool
 	n      int
 	R      time.Duration
+	// every other reply is taken with RecvMsg and its Message kept for the
+	// next request of this context
+	nrecv   int
+	lastMsg *mangos.Message
 }
 
 // Send hands the request over in a buffer of the caller's, which the caller
 // overwrites as soon as Send has returned (Send([]byte) copies: what is
 // retransmitted later is what was sent, not what the buffer holds by then).
 func (c *reqCtx) Send(b []byte) error {
+	if m := c.lastMsg; m != nil {
+		// the ping-pong idiom: the next request goes out in the Message the
+		// last reply came in (whatever header that one still carries: a
+		// request gets an id of its own)
+		c.lastMsg = nil
+		m.Body = append(m.Body[:0], b...)
+		var err error
+		if c.c != nil {
+			err = c.c.SendMsg(m)
+		} else {
+			err = c.s.SendMsg(m)
+		}
+		if err != nil {
+			m.Free()
+		}
+		return err
+	}
 	scratch := append(make([]byte, 0, len(b)+16), b...)
 	var err error
 	if c.c != nil {
@@ -63,6 +84,25 @@ func (c *reqCtx) Send(b []byte) error {
 	return err
 }
 func (c *reqCtx) Recv() ([]byte, error) {
+	c.nrecv++
+	if c.nrecv%2 == 0 {
+		var m *mangos.Message
+		var err error
+		if c.c != nil {
+			m, err = c.c.RecvMsg()
+		} else {
+			m, err = c.s.RecvMsg()
+		}
+		if err != nil {
+			return nil, err
+		}
+		b := append([]byte{}, m.Body...)
+		if c.lastMsg != nil {
+			c.lastMsg.Free()
+		}
+		c.lastMsg = m
+		return b, nil
+	}
 	if c.c != nil {
 		return c.c.Recv()
 	}
